@@ -79,6 +79,7 @@ package version
 //@   requires s.version != nil && s.cache != nil
 //@   modifies s.closed.val, any(*version).ref.val, any(*familyVersion).activeVersions[*]
 //@   ensures[a_snapshot_releases_its_version_exactly_once] (old(s.closed.val) ==> calls(s.version.Release) == old(calls(s.version.Release))) && (!old(s.closed.val) ==> calls(s.version.Release) == old(calls(s.version.Release)) + 1)
+//@   ensures[the_remembered_readers_are_given_back_exactly_once] (old(s.closed.val) ==> calls(s.cache.ReleaseReaders) == old(calls(s.cache.ReleaseReaders))) && (!old(s.closed.val) ==> calls(s.cache.ReleaseReaders) == old(calls(s.cache.ReleaseReaders)) + 1)
 //@   ensures[closed_afterwards] s.closed.val
 //@ end
 //@ # a version leaves the active set only when nothing references it and it is not the current one
